@@ -88,6 +88,8 @@ MixtureOfDiscreteDistributions::MixtureOfDiscreteDistributions(const MixtureOfDi
 
 MixtureOfDiscreteDistributions& MixtureOfDiscreteDistributions::operator=(const MixtureOfDiscreteDistributions& mdd)
 {
+  if (this == &mdd)
+    return *this;
   AbstractDiscreteDistribution::operator=(mdd);
   vdd_.clear();
   probas_.clear();
